@@ -316,8 +316,8 @@ fn cases(tier: Tier) -> Vec<Case> {
         trees.push(vec![root, n(1, 0, Reg::Ty(1), false), n(2, 1, Reg::Ty(2), false), n(3, 2, Reg::Add, false)]);
         trees.push(vec![root, n(1, 0, Reg::Ty(1), false), n(2, 0, Reg::Ty(1), false), n(3, 1, Reg::Ty(1), false), n(4, 1, Reg::Add, true), n(5, 2, Reg::Ty(2), false)]);
     }
-    let bsets: Vec<Vec<(u8, u32)>> = vec![vec![], vec![(1, 601)], vec![(1, 601), (2, 602)], vec![(1, 601), (1, 603)]];
-    let mbs: &[Mailbox] = if tier == Tier::Quick { &[Mailbox::U] } else { &[Mailbox::U, Mailbox::B(1)] };
+    let bsets: Vec<Vec<(u8, u32)>> = vec![vec![], vec![(1, 601)], vec![(1, 601), (2, 602)], vec![(1, 601), (1, 603)], vec![(1, 601), (1, 603), (1, 604), (1, 605)]];
+    let mbs: &[Mailbox] = if tier == Tier::Quick { &[Mailbox::U, Mailbox::B(1)] } else { &[Mailbox::U, Mailbox::B(0), Mailbox::B(1)] };
     for tree in &trees {
         for cause in causes(tier) {
             for bc in &bsets {
